@@ -261,3 +261,525 @@ Theorem inPoly_spec P q cb :
   inPoly P q cb = true <->
   forall i, (i < length P)%nat -> if cb then 0 <= edge_cross P q i else 0 < edge_cross P q i.
 Proof. rewrite inPoly_eq_spec. apply spec_inPoly_ok. Qed.
+
+(* ================================================================================================
+   C16 extension (1): segmentIntersectPoint and rayIntersectPoint *)
+
+(* the two kinds of early-exit stage of the generated code, as rewriting lemmas *)
+Lemma sip_box_stage {T} (p q r s : Q) (dflt K : T) :
+  (let '(hi, lo) := if Qltb (q - p) 0 then (p, q) else (q, p) in
+   match (if Qgtb (r - s) 0
+          then if Qltb hi s || Qltb r lo then inl dflt else inr tt
+          else if Qltb hi r || Qltb s lo then inl dflt else inr tt) with
+   | inl v => v
+   | inr _ => K
+   end) = if ranges_overlap p q r s then K else dflt.
+Proof.
+  unfold ranges_overlap, Qmin', Qmax', Qgtb.
+  destruct (Qltb (q - p) 0) eqn:E1; destruct (Qltb 0 (r - s)) eqn:E2;
+  match goal with |- context [Qltb ?a ?b || Qltb ?c ?d] =>
+    destruct (Qltb a b) eqn:E3; destruct (Qltb c d) eqn:E4 end; cbn [orb];
+  repeat (qcase; cbn [andb]); try reflexivity; exfalso; qb2p; lra.
+Qed.
+
+Definition sip_in_range (f d : Q) : bool :=
+  (Qltb 0 f && Qleb 0 d && Qleb d f) || (Qleb f 0 && Qleb f d && Qleb d 0).
+
+Lemma sip_range_stage {T} (f d : Q) (dflt K : T) :
+  match (if Qgtb f 0
+         then if Qltb d 0 || Qgtb d f then inl dflt else inr tt
+         else if Qgtb d 0 || Qltb d f then inl dflt else inr tt) with
+  | inl v => v
+  | inr _ => K
+  end = if sip_in_range f d then K else dflt.
+Proof.
+  unfold sip_in_range, Qgtb.
+  destruct (Qltb 0 f) eqn:E1;
+  match goal with |- context [Qltb ?a ?b || Qltb ?c ?d] =>
+    destruct (Qltb a b) eqn:E3; destruct (Qltb c d) eqn:E4 end; cbn [orb andb];
+  repeat (qcase; cbn [andb orb]); try reflexivity; exfalso; qb2p; lra.
+Qed.
+
+Lemma sip_in_range_spec f d :
+  sip_in_range f d = true <-> (0 < f /\ 0 <= d /\ d <= f) \/ (f <= 0 /\ f <= d /\ d <= 0).
+Proof.
+  unfold sip_in_range. rewrite orb_true_iff, !andb_true_iff, Qltb_spec, !Qleb_spec. tauto.
+Qed.
+
+(* a common point forces d = s f and e = t f to lie between 0 and f *)
+Lemma segs_meet_in_range a1 a2 b1 b2 : segs_meet a1 a2 b1 b2 ->
+  sip_in_range (sip_den a1 a2 b1 b2) (sip_d a1 a2 b1 b2) = true /\
+  sip_in_range (sip_den a1 a2 b1 b2) (sip_e a1 a2 b1 b2) = true.
+Proof.
+  intros (s & t & Hs0 & Hs1 & Ht0 & Ht1 & E). apply segs_meet_param in E. destruct E as [Ed Ee].
+  rewrite !sip_in_range_spec, Ed, Ee.
+  set (f := sip_den a1 a2 b1 b2). destruct (Qlt_le_dec 0 f); split; [left|left|right|right]; nra.
+Qed.
+
+Lemma sip_ranges_meet a1 a2 b1 b2 :
+  ranges_overlap (px a1) (px a2) (px b1) (px b2) = true ->
+  ranges_overlap (py a1) (py a2) (py b1) (py b2) = true ->
+  sip_in_range (sip_den a1 a2 b1 b2) (sip_d a1 a2 b1 b2) = true ->
+  sip_in_range (sip_den a1 a2 b1 b2) (sip_e a1 a2 b1 b2) = true ->
+  segs_meet a1 a2 b1 b2.
+Proof.
+  intros Ox Oy Rd Re. apply sip_in_range_spec in Rd, Re.
+  set (f := sip_den a1 a2 b1 b2) in *. set (d := sip_d a1 a2 b1 b2) in *. set (e := sip_e a1 a2 b1 b2) in *.
+  destruct (Qeq_dec f 0) as [Ef|Ef].
+  - apply sip_parallel_meet; try assumption; fold f d e; lra.
+  - pose proof (sip_solve_pt a1 a2 b1 b2 Ef) as Hsol. fold f d e in Hsol.
+    exists (d / f), (e / f).
+    assert (Hd : 0 <= d / f /\ d / f <= 1).
+    { destruct Rd as [Rd|Rd].
+      - split; [apply Qle_shift_div_l|apply Qle_shift_div_r]; lra.
+      - assert (E' : d / f == (- d) / (- f)) by (field; lra). rewrite E'.
+        split; [apply Qle_shift_div_l|apply Qle_shift_div_r]; lra. }
+    assert (He : 0 <= e / f /\ e / f <= 1).
+    { destruct Re as [Re|Re].
+      - split; [apply Qle_shift_div_l|apply Qle_shift_div_r]; lra.
+      - assert (E' : e / f == (- e) / (- f)) by (field; lra). rewrite E'.
+        split; [apply Qle_shift_div_l|apply Qle_shift_div_r]; lra. }
+    tauto.
+Qed.
+
+(* the spec decider by cases on the declarative meaning *)
+Lemma spec_sip_dont a1 a2 b1 b2 x y : ~ segs_meet a1 a2 b1 b2 ->
+  spec_segmentIntersectPoint a1 a2 b1 b2 x y = (0%Z, x, y).
+Proof.
+  intros M. pose proof (spec_segmentIntersectPoint_ok a1 a2 b1 b2 x y) as H.
+  destruct (spec_segmentIntersectPoint a1 a2 b1 b2 x y) as [[c x'] y'].
+  unfold segmentIntersectPoint_meaning in H; cbn [fst snd] in H.
+  destruct H as (H1 & H3 & Hc & _ & Hxy).
+  assert (c = 0%Z) by (destruct Hc as [?|[?|?]]; tauto). subst c.
+  destruct Hxy as [-> ->]; [discriminate|reflexivity].
+Qed.
+Lemma spec_sip_par a1 a2 b1 b2 x y : sip_den a1 a2 b1 b2 == 0 -> segs_meet a1 a2 b1 b2 ->
+  spec_segmentIntersectPoint a1 a2 b1 b2 x y = (3%Z, x, y).
+Proof.
+  intros Hf M. pose proof (spec_segmentIntersectPoint_ok a1 a2 b1 b2 x y) as H.
+  destruct (spec_segmentIntersectPoint a1 a2 b1 b2 x y) as [[c x'] y'].
+  unfold segmentIntersectPoint_meaning in H; cbn [fst snd] in H.
+  destruct H as (H1 & H3 & Hc & _ & Hxy).
+  assert (c = 3%Z) by tauto. subst c.
+  destruct Hxy as [-> ->]; [discriminate|reflexivity].
+Qed.
+Lemma spec_sip_do a1 a2 b1 b2 x y : ~ sip_den a1 a2 b1 b2 == 0 -> segs_meet a1 a2 b1 b2 ->
+  spec_segmentIntersectPoint a1 a2 b1 b2 x y =
+  (1%Z, px a1 + sip_d a1 a2 b1 b2 * (px a2 - px a1) / sip_den a1 a2 b1 b2,
+        py a1 + sip_d a1 a2 b1 b2 * (py a2 - py a1) / sip_den a1 a2 b1 b2).
+Proof.
+  intros Hf M. pose proof (spec_segmentIntersectPoint_ok a1 a2 b1 b2 x y) as H.
+  unfold segmentIntersectPoint_meaning in H. revert H. unfold spec_segmentIntersectPoint.
+  apply Qeqb_false in Hf. rewrite Hf.
+  destruct (_ && _); cbn [fst snd]; [reflexivity|].
+  intros (H1 & _). exfalso. apply Qeqb_false in Hf. assert (0%Z = 1%Z) by tauto. discriminate.
+Qed.
+
+Theorem segmentIntersectPoint_eq_spec a1 a2 b1 b2 x y :
+  segmentIntersectPoint a1 a2 b1 b2 x y = spec_segmentIntersectPoint a1 a2 b1 b2 x y.
+Proof.
+  unfold segmentIntersectPoint. cbv zeta. change (inject_Z 0) with 0.
+  fold (sip_den a1 a2 b1 b2). fold (sip_d a1 a2 b1 b2). fold (sip_e a1 a2 b1 b2).
+  rewrite !sip_box_stage, !sip_range_stage.
+  destruct (ranges_overlap (px a1) (px a2) (px b1) (px b2)) eqn:Ox.
+  2:{ symmetry. apply spec_sip_dont. intros M. apply segs_meet_overlap in M. destruct M; congruence. }
+  destruct (ranges_overlap (py a1) (py a2) (py b1) (py b2)) eqn:Oy.
+  2:{ symmetry. apply spec_sip_dont. intros M. apply segs_meet_overlap in M. destruct M; congruence. }
+  destruct (sip_in_range (sip_den a1 a2 b1 b2) (sip_d a1 a2 b1 b2)) eqn:Rd.
+  2:{ symmetry. apply spec_sip_dont. intros M. apply segs_meet_in_range in M. destruct M; congruence. }
+  destruct (sip_in_range (sip_den a1 a2 b1 b2) (sip_e a1 a2 b1 b2)) eqn:Re.
+  2:{ symmetry. apply spec_sip_dont. intros M. apply segs_meet_in_range in M. destruct M; congruence. }
+  pose proof (sip_ranges_meet a1 a2 b1 b2 Ox Oy Rd Re) as M.
+  destruct (Qeqb (sip_den a1 a2 b1 b2) 0) eqn:Ef; qb2p; symmetry.
+  - apply spec_sip_par; assumption.
+  - apply spec_sip_do; assumption.
+Qed.
+
+Theorem segmentIntersectPoint_spec a1 a2 b1 b2 x y :
+  segmentIntersectPoint_meaning a1 a2 b1 b2 x y (segmentIntersectPoint a1 a2 b1 b2 x y).
+Proof. rewrite segmentIntersectPoint_eq_spec. apply spec_segmentIntersectPoint_ok. Qed.
+
+Theorem rayIntersectPoint_eq_spec a1 a2 b1 b2 x y :
+  rayIntersectPoint a1 a2 b1 b2 x y = spec_rayIntersectPoint a1 a2 b1 b2 x y.
+Proof. reflexivity. Qed.
+
+Theorem rayIntersectPoint_spec a1 a2 b1 b2 x y :
+  rayIntersectPoint_meaning a1 a2 b1 b2 x y (rayIntersectPoint a1 a2 b1 b2 x y).
+Proof. rewrite rayIntersectPoint_eq_spec. apply spec_rayIntersectPoint_ok. Qed.
+
+(* non-vacuity: a proper crossing, a collinear overlap, a zero-length segment on the other one *)
+Example segmentIntersectPoint_ex :
+  fst (fst (segmentIntersectPoint (mkpt 0 0) (mkpt 2 2) (mkpt 0 2) (mkpt 2 0) 7 7)) = 1%Z /\
+  fst (fst (segmentIntersectPoint (mkpt 0 0) (mkpt 2 0) (mkpt 1 0) (mkpt 3 0) 7 7)) = 3%Z /\
+  segmentIntersectPoint (mkpt 0 0) (mkpt 2 0) (mkpt 1 0) (mkpt 1 0) 7 7 = (3%Z, 7, 7) /\
+  segmentIntersectPoint (mkpt 0 0) (mkpt 2 0) (mkpt 3 0) (mkpt 4 0) 7 7 = (0%Z, 7, 7).
+Proof. vm_compute. repeat split. Qed.
+
+(* ================================================================================================
+   C16 extension (3-4): colinear, inBetween, cornerSide, inValidRegion *)
+
+Ltac sgn_cmp x :=
+  destruct (sgnQ_cases x) as [[H1 H2]|[[H1 H2]|[H1 H2]]]; rewrite H1; cbn; symmetry;
+  (apply Qltb_spec || apply Qltb_false || apply Qleb_spec || apply Qleb_false); lra.
+Lemma sgnQ_eqb_1 x : Z.eqb (sgnQ x) 1 = Qltb 0 x.   Proof. sgn_cmp x. Qed.
+Lemma sgnQ_eqb_m1 x : Z.eqb (sgnQ x) (-1) = Qltb x 0. Proof. sgn_cmp x. Qed.
+Lemma sgnQ_geb_0 x : Z.geb (sgnQ x) 0 = Qleb 0 x.   Proof. sgn_cmp x. Qed.
+Lemma sgnQ_leb_0 x : Z.leb (sgnQ x) 0 = Qleb x 0.   Proof. sgn_cmp x. Qed.
+Lemma sgnQ_ltb_0 x : Z.ltb (sgnQ x) 0 = Qltb x 0.   Proof. sgn_cmp x. Qed.
+Lemma sgnQ_gtb_0 x : Z.gtb (sgnQ x) 0 = Qltb 0 x.   Proof. sgn_cmp x. Qed.
+Lemma sgnQ_eqb_0 x : Z.eqb (sgnQ x) 0 = Qeqb x 0.
+Proof.
+  destruct (sgnQ_cases x) as [[H1 H2]|[[H1 H2]|[H1 H2]]]; rewrite H1; cbn; symmetry;
+  (apply Qeqb_spec || apply Qeqb_false); lra.
+Qed.
+
+(* ---------------------------------------------------------------- colinear *)
+Theorem colinear_eq_spec a b c : colinear a b c 0 = spec_colinear a b c.
+Proof.
+  unfold colinear, spec_colinear. rewrite Point_eq_spec.
+  destruct (pt_eqb a b) eqn:Eab.
+  { apply pt_eqb_spec in Eab. destruct Eab as [Ex Ey]. symmetry. apply Qeqb_spec.
+    unfold cross. rewrite Ex, Ey. ring. }
+  destruct (Qeqb (px a) (px b)) eqn:Ex; qb2p.
+  { assert (Hy : ~ py a == py b).
+    { intro Ey. rewrite <- not_true_iff_false, pt_eqb_spec in Eab. apply Eab. split; assumption. }
+    apply bool_ext. rewrite !Qeqb_spec. unfold cross. split; intro H.
+    - rewrite <- H, Ex. ring.
+    - assert (H' : (px c - px a) * (py b - py a) == 0) by (rewrite <- Ex in H; lra).
+      apply Qmult_integral in H'. destruct H'; lra. }
+  destruct (Qeqb (py a) (py b)) eqn:Ey; qb2p.
+  { apply bool_ext. rewrite !Qeqb_spec. unfold cross. split; intro H.
+    - rewrite <- H, Ey. ring.
+    - assert (H' : (px b - px a) * (py c - py a) == 0) by (rewrite <- Ey in H; lra).
+      apply Qmult_integral in H'. destruct H'; lra. }
+  rewrite vecDir_cross. apply sgnQ_eqb_0.
+Qed.
+
+Theorem colinear_spec a b c : colinear a b c 0 = true <-> cross a b c == 0.
+Proof. rewrite colinear_eq_spec. unfold spec_colinear. apply Qeqb_spec. Qed.
+
+Theorem colinear_geom a b c : colinear a b c 0 = true <-> collinear_pts a b c.
+Proof. rewrite colinear_eq_spec. apply spec_colinear_ok. Qed.
+
+(* ---------------------------------------------------------------- inBetween *)
+(* For collinear a, b, c the code answers "c strictly between a and b" provided the x-test it chooses is
+   meaningful: either a.x = b.x exactly (then it compares y) or |a.x - b.x| > epsilon (then it compares x).
+   For 0 < |a.x - b.x| <= epsilon it compares y although the segment is not vertical: see inBetween_eps_refuted. *)
+Theorem inBetween_collinear_spec a b c :
+  cross a b c == 0 -> (px a == px b \/ dbl_epsilon < Qabs' (px a - px b)) ->
+  (inBetween a b c = true <-> strictly_between a b c).
+Proof.
+  intros Hc Heps. unfold inBetween, strictly_between. fold dbl_epsilon.
+  unfold pt_eq, lerp, cross in *; cbn [px py].
+  destruct (Qgtb (Qabs' (px a - px b)) dbl_epsilon) eqn:E; qb2p.
+  - assert (Hx : ~ px b - px a == 0).
+    { intro H0. unfold Qabs', dbl_epsilon in E. revert E. qcase; qb2p; intro; lra. }
+    rewrite orb_andb_between, between_1d. split.
+    + intros (t & H0 & H1 & Ex & _). split; [intros [? _]; lra|]. exists t. repeat split; try assumption.
+      assert (H : (py c - py a - t * (py b - py a)) * (px b - px a) == 0) by (rewrite Ex in Hc; nra).
+      apply Qmult_integral in H. destruct H; [lra|tauto].
+    + intros (_ & t & H0 & H1 & Ex & Ey). exists t. repeat split; try assumption. intro; lra.
+  - assert (Ex : px a == px b).
+    { destruct Heps as [?|H]; [assumption|]. lra. }
+    rewrite orb_andb_between, between_1d. split.
+    + intros (t & H0 & H1 & Ey & Hne). split; [tauto|]. exists t. repeat split; try assumption.
+      assert (H : (px c - px a) * (py b - py a) == 0) by (rewrite <- Ex in Hc; lra).
+      apply Qmult_integral in H. destruct H; [|lra]. rewrite <- Ex. lra.
+    + intros (Hne & t & H0 & H1 & Ex' & Ey). exists t. repeat split; try assumption. tauto.
+Qed.
+
+Theorem inBetween_eq_spec a b c :
+  cross a b c == 0 -> (px a == px b \/ dbl_epsilon < Qabs' (px a - px b)) ->
+  inBetween a b c = spec_inBetween a b c.
+Proof.
+  intros Hc Heps. apply bool_ext.
+  rewrite (inBetween_collinear_spec a b c Hc Heps), (spec_inBetween_ok a b c Hc). tauto.
+Qed.
+
+(* the epsilon branch: a horizontal segment shorter than 2^-52 is treated as vertical *)
+Example inBetween_eps_refuted :
+  exists a b c, cross a b c == 0 /\ strictly_between a b c /\ inBetween a b c = false.
+Proof.
+  exists (mkpt 0 0), (mkpt dbl_epsilon 0), (mkpt (dbl_epsilon / 2) 0).
+  split; [vm_compute; reflexivity|]. split; [|vm_compute; reflexivity].
+  split; [intros [H _]; vm_compute in H; discriminate|].
+  exists (1 # 2). repeat split; vm_compute; reflexivity.
+Qed.
+
+(* ---------------------------------------------------------------- cornerSide *)
+Theorem cornerSide_eq_spec c1 c2 c3 p : cornerSide c1 c2 c3 p = spec_cornerSide c1 c2 c3 p.
+Proof.
+  unfold cornerSide, spec_cornerSide. cbv zeta. rewrite !vecDir_cross'.
+  rewrite sgnQ_eqb_1, sgnQ_eqb_m1, !sgnQ_geb_0, !sgnQ_leb_0. reflexivity.
+Qed.
+
+Theorem cornerSide_spec c1 c2 c3 p : cornerSide_meaning c1 c2 c3 p (cornerSide c1 c2 c3 p).
+Proof. rewrite cornerSide_eq_spec. apply spec_cornerSide_ok. Qed.
+
+(* ---------------------------------------------------------------- inValidRegion *)
+Theorem inValidRegion_eq_spec ig a0 a1 a2 b : inValidRegion ig a0 a1 a2 b = spec_inValidRegion ig a0 a1 a2 b.
+Proof.
+  unfold inValidRegion, spec_inValidRegion. cbv zeta. rewrite !vecDir_cross'.
+  assert (Er : cross b a0 a1 == cross a0 a1 b) by (unfold cross; ring).
+  assert (Es : cross b a1 a2 == cross a1 a2 b) by (unfold cross; ring).
+  rewrite (sgnQ_proper _ _ Er), (sgnQ_proper _ _ Es). rewrite sgnQ_gtb_0, !sgnQ_leb_0, !sgnQ_ltb_0.
+  set (r := cross a0 a1 b). set (s := cross a1 a2 b).
+  assert (Hn : forall v, negb (Qltb v 0) = Qleb 0 v).
+  { intro v. destruct (Qltb v 0) eqn:E; cbn; symmetry; qb2p; [apply Qleb_false|apply Qleb_spec]; lra. }
+  rewrite !Hn. reflexivity.
+Qed.
+
+Theorem inValidRegion_spec ig a0 a1 a2 b :
+  inValidRegion_meaning ig a0 a1 a2 b (inValidRegion ig a0 a1 a2 b).
+Proof. rewrite inValidRegion_eq_spec. apply spec_inValidRegion_ok. Qed.
+
+Theorem inValidRegion_convex a0 a1 a2 b : 0 < cross a0 a1 a2 ->
+  (inValidRegion false a0 a1 a2 b = true <-> ~ strictly_in_cone a0 a1 a2 b).
+Proof. rewrite inValidRegion_eq_spec. apply spec_inValidRegion_convex. Qed.
+
+(* ================================================================================================
+   C16 extension (5): segmentShapeIntersect *)
+Theorem segmentShapeIntersect_eq_spec e1 e2 s1 s2 seen :
+  segmentShapeIntersect e1 e2 s1 s2 seen = spec_segmentShapeIntersect e1 e2 s1 s2 seen.
+Proof.
+  unfold segmentShapeIntersect, spec_segmentShapeIntersect.
+  change (inject_Z 0) with 0.
+  rewrite segmentIntersect_eq_spec, !Point_eq_spec, !pointOnLine_eq_spec, !vecDir_cross.
+  fold (spec_vecDir s1 s2 e1). fold (spec_vecDir s1 s2 e2). fold (spec_touchesEdge e1 e2 s1 s2).
+  destruct (spec_segmentIntersect e1 e2 s1 s2); [reflexivity|].
+  destruct (spec_touchesEdge e1 e2 s1 s2); destruct seen; reflexivity.
+Qed.
+
+Theorem segmentShapeIntersect_spec e1 e2 s1 s2 seen :
+  segmentShapeIntersect_meaning e1 e2 s1 s2 seen (segmentShapeIntersect e1 e2 s1 s2 seen).
+Proof. rewrite segmentShapeIntersect_eq_spec. apply spec_segmentShapeIntersect_ok. Qed.
+
+(* the loop over the edges of one shape with the flag threaded, on the generated function *)
+Definition ssi_step (e1 e2 : pt) (st : bool * bool) (edge : pt * pt) : bool * bool :=
+  let r := segmentShapeIntersect e1 e2 (fst edge) (snd edge) (snd st) in (fst st || fst r, snd r).
+Definition shapeBlocks (e1 e2 : pt) (edges : list (pt * pt)) : bool :=
+  fst (fold_left (ssi_step e1 e2) edges (false, false)).
+
+Theorem shapeBlocks_closed e1 e2 edges :
+  shapeBlocks e1 e2 edges =
+  existsb (fun edge => segmentIntersect e1 e2 (fst edge) (snd edge)) edges || (2 <=? spec_touchCount e1 e2 edges)%nat.
+Proof.
+  unfold shapeBlocks.
+  assert (E : forall l st, fold_left (ssi_step e1 e2) l st = fold_left (spec_ssi_step e1 e2) l st).
+  { induction l as [|x l IH]; intros st; [reflexivity|]. cbn [fold_left]. rewrite IH. f_equal.
+    unfold ssi_step, spec_ssi_step. rewrite segmentShapeIntersect_eq_spec. reflexivity. }
+  rewrite E. fold (spec_shapeBlocks e1 e2 edges). rewrite spec_shapeBlocks_closed. f_equal.
+  induction edges as [|x l IH]; [reflexivity|]. cbn [existsb]. rewrite IH. unfold spec_crossesEdge at 1.
+  rewrite segmentIntersect_eq_spec. reflexivity.
+Qed.
+
+(* ================================================================================================
+   C16 extension (7): manhattanDist, projection *)
+Theorem manhattanDist_eq_spec a b : manhattanDist a b == spec_manhattanDist a b.
+Proof. unfold manhattanDist, spec_manhattanDist. rewrite !Qabs'_Qabs. reflexivity. Qed.
+
+Theorem manhattanDist_spec a b : manhattanDist a b == Qabs (px a - px b) + Qabs (py a - py b).
+Proof. exact (manhattanDist_eq_spec a b). Qed.
+
+Theorem projection_eq_spec a b c : projection a b c = spec_projection a b c.
+Proof. reflexivity. Qed.
+
+(* the foot of the perpendicular from b onto the line a-c (a <> c; for a = c the C++ divides 0/0) *)
+Theorem projection_spec a b c : ~ pt_eq a c ->
+  is_foot a c b (projection a b c) /\ forall p, is_foot a c b p -> pt_eq p (projection a b c).
+Proof. rewrite projection_eq_spec. apply spec_projection_ok. Qed.
+
+(* ================================================================================================
+   C16 extension (6): inPolyGen = the division-free crossing-parity rule, for every polygon and query point *)
+
+Lemma Qdiv_sign_pos N D : Qltb 0 (N / D) = Qltb 0 (N * D).
+Proof.
+  destruct (Qeq_dec D 0) as [E|E].
+  - assert (E1 : N / D == 0) by (unfold Qdiv; rewrite E; unfold Qinv; cbn; ring).
+    assert (E2 : N * D == 0) by (rewrite E; ring). rewrite E1, E2. reflexivity.
+  - assert (E1 : N * D == N / D * (D * D)) by (field; exact E).
+    assert (HD : 0 < D * D) by (destruct (Qlt_le_dec 0 D); nra).
+    apply bool_ext. rewrite !Qltb_spec, E1. set (x := N / D). split; intro; nra.
+Qed.
+Lemma Qdiv_sign_neg N D : Qltb (N / D) 0 = Qltb (N * D) 0.
+Proof.
+  destruct (Qeq_dec D 0) as [E|E].
+  - assert (E1 : N / D == 0) by (unfold Qdiv; rewrite E; unfold Qinv; cbn; ring).
+    assert (E2 : N * D == 0) by (rewrite E; ring). rewrite E1, E2. reflexivity.
+  - assert (E1 : N * D == N / D * (D * D)) by (field; exact E).
+    assert (HD : 0 < D * D) by (destruct (Qlt_le_dec 0 D); nra).
+    apply bool_ext. rewrite !Qltb_spec, E1. set (x := N / D). split; intro; nra.
+Qed.
+
+(* --- the in-place translation loop is a map *)
+Lemma upd_nth_middle {A} (pre : list A) x t v : upd_nth (pre ++ x :: t) (length pre) v = pre ++ v :: t.
+Proof. induction pre as [|h pre IH]; cbn; [reflexivity|]. rewrite IH. reflexivity. Qed.
+
+Lemma fold_left_map {A B C} (F : A -> B -> A) (g : C -> B) l s :
+  fold_left F (map g l) s = fold_left (fun st k => F st (g k)) l s.
+Proof. revert s. induction l as [|x l IH]; intros s; cbn; [reflexivity|]. apply IH. Qed.
+
+Lemma translate_loop (f : pt -> pt) (step : list pt -> nat -> list pt) :
+  (forall pre x t, step (pre ++ x :: t) (length pre) = pre ++ f x :: t) ->
+  forall P pre, fold_left step (seq (length pre) (length P)) (pre ++ P) = pre ++ map f P.
+Proof.
+  intros Hstep. induction P as [|x t IH]; intros pre; cbn [length seq fold_left map]; [reflexivity|].
+  rewrite Hstep.
+  replace (pre ++ f x :: t) with ((pre ++ [f x]) ++ t) by (rewrite <- app_assoc; reflexivity).
+  replace (S (length pre)) with (length (pre ++ [f x])) by (rewrite app_length; cbn; lia).
+  rewrite IH. rewrite <- app_assoc. reflexivity.
+Qed.
+
+Lemma inPolyGen_translate P q :
+  fold_left (fun (st : list pt) (i : Z) =>
+     let poly_1 := st in
+     let poly_2 := zupd poly_1 i (mkpt (px (znth pt0 poly_1 i) - px q) (py (znth pt0 poly_1 i))) in
+     let poly_3 := zupd poly_2 i (mkpt (px (znth pt0 poly_2 i)) (py (znth pt0 poly_2 i) - py q)) in
+     poly_3) (zseq 0 (zlen P)) P = map (ipg_rel q) P.
+Proof.
+  unfold zlen. rewrite zseq_0, fold_left_map.
+  apply (translate_loop (ipg_rel q) _) with (pre := @nil pt).
+  intros pre x t. cbv zeta. unfold zupd. rewrite !znth_of_nat, !Nat2Z.id.
+  rewrite nth_middle, upd_nth_middle, nth_middle, upd_nth_middle. reflexivity.
+Qed.
+
+(* --- the crossing loop *)
+Section InPolyGenLoop.
+  Variables (P' : list pt).
+  Let n := zlen P'.
+  Let F := fun (st_1 : option bool * (Z * Z)) (i_1 : Z) =>
+    match st_1 with
+    | (Some _, _) => st_1
+    | (None, (Lcross_1, Rcross_1)) =>
+      if Qeqb (px (znth pt0 P' i_1)) (inject_Z 0) && Qeqb (py (znth pt0 P' i_1)) (inject_Z 0)
+      then (Some true, (Lcross_1, Rcross_1))
+      else
+        let i1 := Z.rem (i_1 + n - 1) n in
+        let Rcross_4 :=
+          if xorb (Qgtb (py (znth pt0 P' i_1)) (inject_Z 0)) (Qgtb (py (znth pt0 P' i1)) (inject_Z 0))
+          then
+            let x := (px (znth pt0 P' i_1) * py (znth pt0 P' i1) - px (znth pt0 P' i1) * py (znth pt0 P' i_1)) /
+                     (py (znth pt0 P' i1) - py (znth pt0 P' i_1)) in
+            let Rcross_3 := if Qgtb x (inject_Z 0) then let Rcross_2 := (Rcross_1 + 1)%Z in Rcross_2 else Rcross_1 in
+            Rcross_3
+          else Rcross_1 in
+        let Lcross_4 :=
+          if xorb (Qltb (py (znth pt0 P' i_1)) (inject_Z 0)) (Qltb (py (znth pt0 P' i1)) (inject_Z 0))
+          then
+            let x_1 := (px (znth pt0 P' i_1) * py (znth pt0 P' i1) - px (znth pt0 P' i1) * py (znth pt0 P' i_1)) /
+                       (py (znth pt0 P' i1) - py (znth pt0 P' i_1)) in
+            let Lcross_3 := if Qltb x_1 (inject_Z 0) then let Lcross_2 := (Lcross_1 + 1)%Z in Lcross_2 else Lcross_1 in
+            Lcross_3
+          else Lcross_1 in
+        (None, (Lcross_4, Rcross_4))
+    end.
+
+  Let prevp (k : nat) : pt := nth ((k + length P' - 1) mod length P') P' pt0.
+  Let curp (k : nat) : pt := nth k P' pt0.
+  Let hit (k : nat) : bool := ipg_at_origin (curp k).
+  Let rk (k : nat) : Z := b2z (ipg_edgeR (prevp k) (curp k)).
+  Let lk (k : nat) : Z := b2z (ipg_edgeL (prevp k) (curp k)).
+
+  Lemma ipg_step k L R : (k < length P')%nat ->
+    F (None, (L, R)) (Z.of_nat k) =
+    if hit k then (Some true, (L, R)) else (None, ((L + lk k)%Z, (R + rk k)%Z)).
+  Proof.
+    intros Hk. unfold F, hit, rk, lk, ipg_at_origin, ipg_edgeR, ipg_edgeL. cbv zeta.
+    unfold n, zlen. rewrite (prev_index k (length P') Hk), !znth_of_nat.
+    fold (curp k) (prevp k). change (inject_Z 0) with 0. unfold Qgtb.
+    destruct (Qeqb (px (curp k)) 0 && Qeqb (py (curp k)) 0); [reflexivity|].
+    rewrite Qdiv_sign_pos, Qdiv_sign_neg. fold (ipg_N (prevp k) (curp k)).
+    f_equal. f_equal.
+    - destruct (xorb (Qltb (py (curp k)) 0) (Qltb (py (prevp k)) 0)); cbn [andb b2z];
+        [destruct (Qltb _ 0); cbn [b2z]|]; lia.
+    - destruct (xorb (Qltb 0 (py (curp k))) (Qltb 0 (py (prevp k)))); cbn [andb b2z];
+        [destruct (Qltb 0 _); cbn [b2z]|]; lia.
+  Qed.
+
+  Lemma ipg_loop_some l r x : fold_left F l (Some r, x) = (Some r, x).
+  Proof. induction l; cbn; auto. Qed.
+
+  Lemma ipg_loop l : (forall k, In k l -> (k < length P')%nat) -> forall L R,
+    let res := fold_left F (map Z.of_nat l) (None, (L, R)) in
+    (existsb hit l = true -> fst res = Some true) /\
+    (existsb hit l = false ->
+       res = (None, ((L + fold_right (fun k acc => (lk k + acc)%Z) 0%Z l)%Z,
+                     (R + fold_right (fun k acc => (rk k + acc)%Z) 0%Z l)%Z))).
+  Proof.
+    induction l as [|k l IH]; intros Hl L R; cbn [map fold_left existsb fold_right].
+    - split; [discriminate|]. intros _. rewrite !Z.add_0_r. reflexivity.
+    - rewrite ipg_step by (apply Hl; left; reflexivity).
+      destruct (hit k) eqn:Eh; cbn [orb].
+      + rewrite ipg_loop_some. split; [reflexivity|discriminate].
+      + specialize (IH (fun j Hj => Hl j (or_intror Hj)) (L + lk k)%Z (R + rk k)%Z). cbv zeta in IH.
+        destruct IH as [IH1 IH2]. split; [exact IH1|].
+        intros H. rewrite (IH2 H), !Z.add_assoc. reflexivity.
+  Qed.
+End InPolyGenLoop.
+
+Lemma existsb_nth_seq {A} (g : A -> bool) (l : list A) (d : A) :
+  existsb (fun k => g (nth k l d)) (seq 0 (length l)) = existsb g l.
+Proof.
+  apply bool_ext. rewrite !existsb_exists. split.
+  - intros (k & Hk & Hg). apply in_seq in Hk. exists (nth k l d). split; [apply nth_In; lia|exact Hg].
+  - intros (x & Hx & Hg). destruct (In_nth l x d Hx) as (k & Hk & E). exists k. split; [apply in_seq; lia|].
+    rewrite E. exact Hg.
+Qed.
+
+Theorem inPolyGen_eq_spec P q : inPolyGen P q = spec_inPolyGen P q.
+Proof.
+  unfold inPolyGen. cbv zeta. rewrite inPolyGen_translate.
+  set (P' := map (ipg_rel q) P).
+  assert (Hlen : zlen P = zlen P') by (unfold zlen, P'; rewrite map_length; reflexivity).
+  rewrite Hlen. change (zseq 0 (zlen P')) with (zseq 0 (Z.of_nat (length P'))). rewrite zseq_0.
+  pose proof (ipg_loop P' (seq 0 (length P')) (fun k Hk => proj2 (proj1 (in_seq _ _ _) Hk)) 0%Z 0%Z) as H.
+  cbv zeta in H. destruct H as [H1 H2].
+  unfold spec_inPolyGen. cbv zeta. fold P'. rewrite <- (existsb_nth_seq ipg_at_origin P' pt0).
+  match type of H1 with existsb ?h _ = true -> _ => set (hitf := h) in * end.
+  destruct (existsb hitf (seq 0 (length P'))) eqn:Eh.
+  - specialize (H1 eq_refl).
+    match type of H1 with fst ?t = _ => destruct t as [[r|] x] end; cbn in H1; [|discriminate].
+    injection H1 as ->. reflexivity.
+  - rewrite (H2 eq_refl), !Z.add_0_l. cbn [orb]. unfold ipg_parity, ipg_count.
+    match goal with |- (if ?c then _ else _) = _ => destruct c end; [reflexivity|].
+    match goal with |- (if ?c then _ else _) = _ => destruct c end; reflexivity.
+Qed.
+
+Theorem inPolyGen_vertex P q : (exists p, In p P /\ pt_eq p q) -> inPolyGen P q = true.
+Proof. rewrite inPolyGen_eq_spec. apply spec_inPolyGen_vertex. Qed.
+
+(* every non-degenerate triangle, either orientation, every rational query point *)
+Theorem inPolyGen_triangle A B C q : ~ cross A B C == 0 ->
+  (inPolyGen [A; B; C] q = true <-> in_closed_triangle A B C q).
+Proof.
+  intros Hnd. rewrite inPolyGen_eq_spec, (spec_inPolyGen_triangle A B C q Hnd).
+  apply (spec_triangle_region_ok A B C q Hnd).
+Qed.
+Corollary inPolyGen_triangle_ccw A B C q : 0 < cross A B C -> inPolyGen [A; B; C] q = spec_inPoly [A; B; C] q true.
+Proof.
+  intros H. rewrite inPolyGen_eq_spec, spec_inPolyGen_triangle by (intro; lra).
+  apply Qltb_spec in H. rewrite H. reflexivity.
+Qed.
+
+(* every axis-parallel rectangle with positive width and height, in any of its 8 vertex orders *)
+Theorem inPolyGen_rect x0 x1 y0 y1 o q : x0 < x1 -> y0 < y1 -> In o rect_orders ->
+  (inPolyGen (rect_poly o x0 x1 y0 y1) q = true <-> in_closed_rect x0 x1 y0 y1 q).
+Proof.
+  intros Hx Hy Ho. rewrite inPolyGen_eq_spec, (spec_inPolyGen_rect x0 x1 y0 y1 o q Hx Hy Ho).
+  apply rect_contains_ok.
+Qed.
+
+(* inPolyGen_general_partial (STATED, NOT PROVED): for every simple polygon P (closed, non-self-intersecting,
+   consecutive vertices distinct) and every q, inPolyGen P q = true <-> q lies in the closed region bounded by P.
+   What is proved: inPolyGen_eq_spec (the code computes exactly the division-free crossing-parity rule
+   spec_inPolyGen, for every polygon), inPolyGen_vertex, inPolyGen_triangle, inPolyGen_rect.  Missing: the
+   Jordan-curve argument that the crossing parity of a horizontal ray characterises the interior of a general
+   simple polygon, and that the left/right parity disagreement characterises boundary points. *)
+
+Example inPolyGen_ex :
+  inPolyGen [mkpt 0 0; mkpt 4 0; mkpt 0 4] (mkpt 1 1) = true /\
+  inPolyGen [mkpt 0 0; mkpt 4 0; mkpt 0 4] (mkpt 2 2) = true /\
+  inPolyGen [mkpt 0 0; mkpt 4 0; mkpt 0 4] (mkpt 3 3) = false /\
+  inPolyGen (rect_poly rect_ccw 0 3 0 2) (mkpt 3 1) = true /\
+  inPolyGen (rect_poly rect_ccw 0 3 0 2) (mkpt 4 1) = false.
+Proof. vm_compute. repeat split. Qed.
